@@ -82,6 +82,21 @@ def int_eval(t, atoms):
     if tag == 'cmp':
         r = bool_eval(t, atoms)
         return None if r is None else int(r)
+    if tag == 'boolop':
+        # value semantics of `a or b` / `a and b` over integers (a term bound to None in `atoms` is a known None, i.e. falsy)
+        last = None
+        for x in t[2]:
+            known_none = (x in atoms and atoms[x] is None) or x == T.CONST_NONE
+            v = None if known_none else int_eval(x, atoms)
+            if v is None and not known_none:
+                return None
+            truthy = bool(v) if not known_none else False
+            last = v
+            if t[1] == 'or' and truthy:
+                return v
+            if t[1] == 'and' and not truthy:
+                return v
+        return last
     if tag == 'ifexp':
         c = bool_eval(t[1], atoms)
         if c is None:
